@@ -1,6 +1,7 @@
 mod drive;
 mod exec;
 mod hexvec;
+mod labelvec;
 mod mergevec;
 mod model;
 mod observers;
@@ -39,6 +40,12 @@ fn main() {
         "drive" => cmd_drive(&m),
         "record" => cmd_record(&m),
         "merge" => cmd_merge(&m),
+        "labelvec" => {
+            let paths: Vec<PathBuf> = m.get("vectors").expect("--vectors").iter().map(PathBuf::from).collect();
+            let j = labelvec::run(&paths, &PathBuf::from(one(&m, "obs-out").expect("--obs-out")));
+            println!("{j}");
+            0
+        }
         "hexvec" => {
             let paths: Vec<PathBuf> = m.get("vectors").expect("--vectors").iter().map(PathBuf::from).collect();
             let j = hexvec::run(&paths, &PathBuf::from(one(&m, "obs-out").expect("--obs-out")));
